@@ -108,6 +108,15 @@ func runPaths(c *pathsCase, variant string) (out pathsOutcome, skipped bool) {
 			}
 			cfg = ucfg.New()
 			err = cfg.SetString(key, -1, "v", opts...)
+		case "setter-idx":
+			// name PLUS index: the name keeps its own classification (a numeric single-segment name under
+			// EnableNumKeys stays a name), the value becomes the first element of a list there
+			if key == "" {
+				skipped = true
+				return
+			}
+			cfg = ucfg.New()
+			err = cfg.SetString(key, 0, "v", opts...)
 		}
 		if err != nil {
 			out.Err = "error: " + err.Error()
@@ -127,8 +136,12 @@ func runPaths(c *pathsCase, variant string) (out pathsOutcome, skipped bool) {
 			return
 		}
 		// read back through the same spelling, then remove it
-		s, err := cfg.String(key, -1, opts...)
-		ok, herr := cfg.Has(key, -1, opts...)
+		ridx := -1
+		if variant == "setter-idx" {
+			ridx = 0
+		}
+		s, err := cfg.String(key, ridx, opts...)
+		ok, herr := cfg.Has(key, ridx, opts...)
 		switch {
 		case err != nil:
 			out.Read = "getter failed: " + err.Error()
@@ -174,7 +187,7 @@ func pathsReplay(args []string) int {
 		} else {
 			rep.class("name")
 		}
-		for _, variant := range []string{"map", "tag", "setter"} {
+		for _, variant := range []string{"map", "tag", "setter", "setter-idx"} {
 			out, skipped := runPaths(&c, variant)
 			if skipped {
 				rep.skip()
@@ -192,8 +205,11 @@ func pathsReplay(args []string) int {
 				if e.Ok == nil {
 					return out.Err == e.Err
 				}
-				return out.Err == "" && out.Read == "" &&
-					reflect.DeepEqual(out.M, e.Ok.M.canon()) && reflect.DeepEqual(out.L, e.Ok.L.canon())
+				wm, wl := e.Ok.M.canon(), e.Ok.L.canon()
+				if variant == "setter-idx" {
+					wm, wl = leafToList(wm), leafToList(wl)
+				}
+				return out.Err == "" && out.Read == "" && reflect.DeepEqual(out.M, wm) && reflect.DeepEqual(out.L, wl)
 			}
 			if out.Err == "" && int64(out.MaxLen) > c.MaxIdx+1 {
 				rep.violate("alloc-bound/"+variant, raw, out, "list length <= MaxIdx+1", "")
@@ -203,6 +219,29 @@ func pathsReplay(args []string) int {
 		}
 	}, rep)
 	return rep.finish()
+}
+
+// leafToList replaces the value "v" of an expected observation by the list ["v"] (name + idx 0)
+func leafToList(v interface{}) interface{} {
+	switch x := v.(type) {
+	case string:
+		if x == "s:v" {
+			return []interface{}{"s:v"}
+		}
+	case map[string]interface{}:
+		m := map[string]interface{}{}
+		for k, e := range x {
+			m[k] = leafToList(e)
+		}
+		return m
+	case []interface{}:
+		l := make([]interface{}, len(x))
+		for i, e := range x {
+			l[i] = leafToList(e)
+		}
+		return l
+	}
+	return v
 }
 
 // ---- driver: random integer literals in random syntax ---------------------------------
